@@ -2,11 +2,19 @@
 
    Contents
    1. encode / encode_all: the bytes a role puts on the wire for a list of messages
-   2. write-side calls in the Active state: what they change (general, any oracle)
-   3. the writer: [write m1; ...; write mn; flush]  — wire log is a prefix of / equal to encode_all
-   4. the whole-stream reference decoder on encode_all
-   5. one read call against the decoder's view; successive reads
-   6. the reader theorem and the round trip                                                        *)
+   2. write-side calls in the Active state: what they change and what they leave alone (any oracle)
+   3. the writer: any interleaving of writes and flushes — wire ++ out_buffer = encode_all
+      (writer_ops), the shape [write m1; ...; write mn; flush] (writer_run)
+   4. the whole-stream reference decoder (CodecReadP) on encode_all and on its prefixes
+   5. one read call against the decoder's view (read_step)
+   6. successive reads (reads_run), the reader theorems (reader_run, reader_prefix)
+   7. the round trip (roundtrip, roundtrip_prefix)
+   8. an accepting transport: every call returns Ok (writer_accepting, roundtrip_accepting)
+   9. boolean checkers for the hypotheses, boundary lengths as instances
+
+   Route: WritePathP (C10 invariant  wire ++ out = concat (map frame_format queued)) for the writer;
+   CodecReadP.drive_ref (successive read_frame results = whole-stream reference decoder, for every
+   schedule) + HeaderP.header_parse_format_nr + MaskP.xor_cyc_involutive for the reader.          *)
 From TungModel Require Import Base Coding Mask Header Frame Utf8 World Message Codec Protocol.
 From TungModel.proofs Require Import HeaderP MaskP CodecReadP WritePathP.
 From Coq Require Import Arith Lia ZifyBool ZifyNat ZifyN.
@@ -658,7 +666,7 @@ Definition wf_msg (m : message) : Prop :=
   | _ => True
   end.
 
-(* the reader's limits admit the message: no limit, or a limit of at least its size *)
+(* the reader's limits allow the message: no limit, or a limit of at least its size *)
 Definition fits (cfg : config) (m : message) : Prop :=
   blen (payload_of m) <= limit_of (cfg_max_frame_size cfg) /\
   match m with
@@ -1151,4 +1159,333 @@ Proof.
                = encode_all r (w_keys ww0) (written ops)).
   { rewrite app_assoc, Hdata. exact Hwire. }
   exact (reader_prefix _ _ _ _ _ _ _ _ _ _ _ _ HnR Hlive Hd Hsoft Hok HR).
+Qed.
+
+(* ------------------------------------------------------------------------------------------ *)
+(** * 8. A transport that accepts everything: every call returns Ok
+
+   [acc_wrs T k wrs]: the next k write calls each accept at least T bytes; [acc_fls k fls]: the next k
+   flush calls succeed.  With T = the total encoded size every transport write takes the whole
+   out_buffer. *)
+
+Fixpoint acc_wrs (T : N) (k : nat) (wrs : list wr_out) : Prop :=
+  match k with
+  | O => True
+  | S k' => match wrs with WrAccept n :: r => T <= n /\ acc_wrs T k' r | _ => False end
+  end.
+Fixpoint acc_fls (k : nat) (fls : list fl_out) : Prop :=
+  match k with
+  | O => True
+  | S k' => match fls with FlOk :: r => acc_fls k' r | _ => False end
+  end.
+
+Lemma acc_wrs_S T k wrs : acc_wrs T (S k) wrs -> acc_wrs T k wrs.
+Proof.
+  revert wrs. induction k as [|k IH]; intros wrs H; [exact I|].
+  cbn [acc_wrs] in *. destruct wrs as [|[n|e] r]; try contradiction.
+  destruct H as [Hn H]. split; [exact Hn|]. apply IH. exact H.
+Qed.
+
+Lemma write_out_loop_nil wrs log : write_out_loop wrs [] log = (ROk tt, [], wrs, log).
+Proof. destruct wrs; reflexivity. Qed.
+
+Lemma write_out_buffer_accepting T k c w :
+  blen (c_out c) <= T -> acc_wrs T (S k) (w_wrs w) ->
+  exists w', write_out_buffer c w = (ROk tt, set_out c [], w') /\
+    acc_wrs T k (w_wrs w') /\ w_fls w' = w_fls w.
+Proof.
+  intros Hb Ha. unfold write_out_buffer. destruct (c_out c) as [|b o] eqn:Eo.
+  - destruct (w_wrs w) as [|[n|e] r] eqn:Ew; cbn [acc_wrs] in Ha; try contradiction.
+    rewrite write_out_loop_nil. eexists. split; [reflexivity|]. cbn [w_wrs w_fls]. split; [|reflexivity].
+    apply acc_wrs_S. cbn [acc_wrs]. exact Ha.
+  - destruct (w_wrs w) as [|[n|e] r] eqn:Ew; cbn [acc_wrs] in Ha; try contradiction.
+    destruct Ha as [Hn Ha]. cbn [write_out_loop].
+    assert (Hmin : N.min n (blen (b :: o)) = blen (b :: o)) by lia.
+    rewrite Hmin. replace (blen (b :: o) =? 0) with false by (symmetry; rewrite blen_cons; lia).
+    assert (Hd : dropN (blen (b :: o)) (b :: o) = []).
+    { rewrite <- (app_nil_r (b :: o)) at 2. apply dropN_app_blen. }
+    rewrite Hd, write_out_loop_nil. eexists. split; [reflexivity|]. cbn [w_wrs w_fls]. auto.
+Qed.
+
+Lemma after_key_fls r w : w_fls (after_key r w) = w_fls w.
+Proof. destruct r; [reflexivity|]. unfold after_key, w_next_key. destruct (w_keys w); reflexivity. Qed.
+
+Lemma buffer_frame_accepting T k x f w :
+  x_state x = Active ->
+  frame_len (sent_frame (x_role x) w f) + blen (c_out (x_codec x)) <= T -> T <= c_max_out (x_codec x) ->
+  acc_wrs T (S k) (w_wrs w) ->
+  exists x' w', buffer_frame x f w = (ROk tt, x', w') /\ acc_wrs T k (w_wrs w') /\ w_fls w' = w_fls w.
+Proof.
+  intros Hs Hfit HT Ha. rewrite buffer_frame_unfold. cbv zeta.
+  set (f1 := sent_frame (x_role x) w f) in *. set (w1 := after_key (x_role x) w).
+  assert (Ha1 : acc_wrs T (S k) (w_wrs w1)) by (unfold w1; rewrite after_key_wrs; exact Ha).
+  assert (Hf1 : w_fls w1 = w_fls w) by apply after_key_fls.
+  unfold codec_buffer_frame.
+  replace (c_max_out (x_codec x) <? frame_len f1 + blen (c_out (x_codec x))) with false by (symmetry; lia).
+  rewrite frame_format_into_buf_eq. cbn [c_out set_out c_write_len].
+  destruct (c_write_len (x_codec x) <? blen (c_out (x_codec x) ++ frame_format f1)).
+  - destruct (write_out_buffer_accepting T k (set_out (x_codec x) (c_out (x_codec x) ++ frame_format f1))
+                (w_emit w1 (EvQueue f1))) as [w' [E [Hacc Hfl]]].
+    + cbn [c_out set_out]. rewrite blen_app, <- frame_len_exact. lia.
+    + exact Ha1.
+    + rewrite E. cbn [check_connection_reset]. eexists. eexists. split; [reflexivity|].
+      split; [exact Hacc|]. rewrite Hfl. exact Hf1.
+  - cbn [check_connection_reset]. eexists. eexists. split; [reflexivity|].
+    cbn [w_wrs w_fls w_emit]. split; [apply acc_wrs_S; exact Ha1|exact Hf1].
+Qed.
+
+(* a user write over an accepting transport *)
+Lemma write_plain_accepting T k x m w r x' w' :
+  x_state x = Active -> x_additional x = None -> x_unflushed x = false -> plain m = true ->
+  frame_len (sent_frame (x_role x) w (frame_of m)) + blen (c_out (x_codec x)) <= T ->
+  T <= c_max_out (x_codec x) ->
+  acc_wrs T (S k) (w_wrs w) ->
+  write x m w = (r, x', w') ->
+  r = ROk tt /\ x_unflushed x' = false /\ acc_wrs T k (w_wrs w') /\ w_fls w' = w_fls w.
+Proof.
+  intros Hs Had Hu Hp Hfit HT Ha H.
+  unfold write in H. rewrite Hs in H. cbn [is_terminated is_active negb] in H. cbv beta iota zeta in H.
+  assert (Hdata : forall f, f = frame_of m ->
+    (let '(r0, x1, w1) := write_ x (Some f) w in
+     match r0 with
+     | ROk true => flush x1 w1
+     | ROk false => (ROk tt, x1, w1)
+     | RErr e => (RErr e, x1, w1)
+     | RPanic s => (RPanic s, x1, w1)
+     | ROutOfFuel => (ROutOfFuel, x1, w1)
+     end) = (r, x', w') ->
+    r = ROk tt /\ x_unflushed x' = false /\ acc_wrs T k (w_wrs w') /\ w_fls w' = w_fls w).
+  { intros f -> HD. unfold write_ in HD.
+    destruct (buffer_frame_accepting T k x (frame_of m) w Hs Hfit HT Ha) as [x0 [w0 [EB [Hacc Hfl]]]].
+    pose proof (buffer_frame_gen _ _ _ _ _ _ Hs EB) as G. cbv zeta in G. destruct G as [Hx0 _].
+    rewrite Had, Hu in Hx0. remember (c_out (x_codec x0)) as o eqn:Eo. clear Eo.
+    rewrite EB in HD. rewrite Hx0 in HD. cbn [x_additional x_unflushed x_role x_state upd] in HD.
+    rewrite Hs in HD. cbn [closing_done] in HD. rewrite Bool.andb_false_r in HD. cbn [andb] in HD.
+    inv HD. cbn [x_unflushed upd]. auto. }
+  destruct m as [d|d|d|d|c|f]; try discriminate Hp.
+  - apply (Hdata _ eq_refl). exact H.
+  - apply (Hdata _ eq_refl). exact H.
+  - apply (Hdata _ eq_refl). exact H.
+  - unfold set_additional in H. rewrite Had in H. unfold write_ in H. cbv beta iota zeta in H.
+    cbn [x_additional set_additional_raw] in H.
+    set (xa := set_additional_raw (set_additional_raw x (Some (frame_pong d))) None) in *.
+    destruct (buffer_frame_accepting T k xa (frame_pong d) w Hs Hfit HT Ha) as [x0 [w0 [EB [Hacc Hfl]]]].
+    pose proof (buffer_frame_gen xa _ _ _ _ _ Hs EB) as G. cbv zeta in G. destruct G as [Hx0 _].
+    cbn [xa x_additional x_unflushed set_additional_raw] in Hx0. rewrite Hu in Hx0.
+    remember (c_out (x_codec x0)) as o eqn:Eo. clear Eo.
+    rewrite EB in H. rewrite Hx0 in H. cbn [x_additional x_unflushed x_role x_state upd xa set_additional_raw] in H.
+    rewrite Hs in H. cbn [closing_done] in H. rewrite Bool.andb_false_r in H. cbn [andb] in H.
+    inv H. cbn [x_unflushed upd set_additional_raw]. auto.
+Qed.
+
+Lemma flush_accepting T k x w r x' w' :
+  x_state x = Active -> x_additional x = None ->
+  blen (c_out (x_codec x)) <= T -> acc_wrs T (S k) (w_wrs w) -> acc_fls (S k) (w_fls w) ->
+  flush x w = (r, x', w') ->
+  r = ROk tt /\ x_unflushed x' = false /\ c_out (x_codec x') = [] /\
+  acc_wrs T k (w_wrs w') /\ acc_fls k (w_fls w').
+Proof.
+  intros Hs Had Hb Ha Hf H. unfold flush in H. rewrite (write_none_none _ _ Hs Had) in H.
+  destruct (write_out_buffer_accepting T k (x_codec x) w Hb Ha) as [w1 [E [Hacc Hfl]]].
+  rewrite E in H. unfold w_flush in H. rewrite Hfl in H.
+  destruct (w_fls w) as [|[|e] fr]; cbn [acc_fls] in Hf; try contradiction.
+  inv H. cbn. auto.
+Qed.
+
+Definition res_ok_unit (p : op_result * N) : Prop := fst p = ResUnit (ROk tt).
+
+Lemma wops_accepting T ops : forall x w rs x' w',
+  x_state x = Active -> x_additional x = None -> x_unflushed x = false -> Forall wop_ok ops ->
+  wp_inv (c_out (x_codec x)) (w_log w) ->
+  blen (enc (queued (w_log w))) + blen (enc (frames_all (x_role x) (w_keys w) (written ops))) <= T ->
+  T <= c_max_out (x_codec x) ->
+  acc_wrs T (length ops) (w_wrs w) -> acc_fls (length ops) (w_fls w) ->
+  run_ops x ops w = (rs, x', w') ->
+  Forall res_ok_unit rs.
+Proof.
+  induction ops as [|op ops IH]; intros x w rs x' w' Hs Had Hu Hp Hi Hb HT Ha Hf H.
+  - cbn in H. inv H. constructor.
+  - inversion Hp as [|? ? Hpm Hps]; subst.
+    assert (Hout : blen (c_out (x_codec x)) <= blen (enc (queued (w_log w)))).
+    { unfold wp_inv in Hi. rewrite <- Hi, blen_app. lia. }
+    destruct op as [|m| | | | |]; try contradiction.
+    + cbn [run_ops run_op] in H.
+      destruct (write x m w) as [[r1 x1] w1] eqn:EW.
+      destruct (run_ops x1 ops w1) as [[rs2 x2] w2] eqn:ER. inv H.
+      cbn [wop_ok] in Hpm. cbn [written length] in *.
+      cbn [frames_all] in Hb. rewrite <- sent_frame_wire, enc_cons, blen_app in Hb.
+      set (f1 := sent_frame (x_role x) w (frame_of m)) in *.
+      assert (Hfit : frame_len f1 + blen (c_out (x_codec x)) <= T) by (rewrite frame_len_exact; lia).
+      assert (Hfit' : frame_len f1 + blen (c_out (x_codec x)) <= c_max_out (x_codec x)) by lia.
+      pose proof (write_pstep _ _ _ _ _ _ EW) as P.
+      pose proof P as [[[evs [El Ht]] [Hmx _]] [_ Hro]].
+      assert (Hi1 : wp_inv (c_out (x_codec x1)) (w_log w1)).
+      { rewrite El. eapply wp_inv_step; eassumption. }
+      pose proof (write_plain_accepting T _ _ _ _ _ _ _ Hs Had Hu Hpm Hfit HT Ha EW) as [-> [Hu1 [Ha1 Hf1]]].
+      apply (write_plain_step _ _ _ _ _ _ Hs Had Hpm Hfit') in EW. fold f1 in EW.
+      destruct EW as [_ [Hs1 [Had1 [Hq1 Hk1]]]].
+      constructor; [reflexivity|].
+      apply (IH _ _ _ _ _ Hs1 Had1 Hu1 Hps Hi1) in ER; auto.
+      * rewrite Hro, Hk1, frames_all_after_key, Hq1, enc_app, blen_app. unfold enc at 2. cbn [map concat].
+        rewrite app_nil_r. lia.
+      * lia.
+      * rewrite Hf1. cbn [acc_fls] in Hf. destruct (w_fls w) as [|[|e] fr]; try contradiction.
+        clear - Hf. revert fr Hf. induction (length ops) as [|k IHk]; intros fr Hf; [exact I|].
+        cbn [acc_fls] in *. destruct fr as [|[|e] fr']; try contradiction. auto.
+    + cbn [run_ops run_op] in H.
+      destruct (flush x w) as [[r1 x1] w1] eqn:EF.
+      destruct (run_ops x1 ops w1) as [[rs2 x2] w2] eqn:ER. inv H.
+      cbn [written length] in *.
+      pose proof (flush_pstep _ _ _ _ _ EF) as [[[evs [El Ht]] _] _].
+      assert (Hi1 : wp_inv (c_out (x_codec x1)) (w_log w1)).
+      { rewrite El. eapply wp_inv_step; eassumption. }
+      assert (HoutT : blen (c_out (x_codec x)) <= T) by lia.
+      pose proof (flush_accepting T _ _ _ _ _ _ Hs Had HoutT Ha Hf EF) as [-> [Hu1 [_ [Ha1 Hf1]]]].
+      apply (flush_none _ _ _ _ _ Hs Had) in EF.
+      destruct EF as [_ [[o [u ->]] [Hq1 Hk1]]].
+      constructor; [reflexivity|].
+      apply (IH (upd x o None u) _ _ _ _ Hs eq_refl Hu1 Hps Hi1) in ER; auto.
+      cbn [x_role x_codec upd]. rewrite Hq1, Hk1. exact Hb.
+Qed.
+
+(* Over a transport that accepts everything (each of the first |ops| write calls takes at least the
+   total encoded size, each of the first |ops| flush calls succeeds), every write and every flush
+   returns Ok. *)
+Theorem writer_accepting r part cfg ops x0 w0 rs x w :
+  ctx_new r part cfg = Some x0 -> w_log w0 = [] ->
+  Forall wop_ok ops ->
+  blen (encode_all r (w_keys w0) (written ops)) <= cfg_max_write_buffer_size cfg ->
+  acc_wrs (blen (encode_all r (w_keys w0) (written ops))) (length ops) (w_wrs w0) ->
+  acc_fls (length ops) (w_fls w0) ->
+  run_ops x0 ops w0 = (rs, x, w) ->
+  Forall res_ok_unit rs.
+Proof.
+  intros Hn Hl Hp Hb Ha Hf H.
+  apply ctx_new_spec in Hn. destruct Hn as [[Hmx _] [Ho [Hcfg [Hro [Hs [Had Hu]]]]]].
+  assert (Hi0 : wp_inv (c_out (x_codec x0)) (w_log w0)).
+  { unfold wp_inv. rewrite Ho, Hl. reflexivity. }
+  refine (wops_accepting _ ops _ _ _ _ _ Hs Had Hu Hp Hi0 _ _ Ha Hf H).
+  - rewrite Hl. cbn [queued]. unfold enc at 1. cbn [map concat]. rewrite blen_nil.
+    rewrite <- encode_all_enc, Hro. lia.
+  - rewrite Hmx, Hcfg. exact Hb.
+Qed.
+
+Lemma last_res_ok rs d : rs <> [] -> Forall res_ok_unit rs -> last (map fst rs) d = ResUnit (ROk tt).
+Proof.
+  induction rs as [|p rs IH]; intros Hne H; [contradiction|].
+  inversion H as [|? ? Hp Hrs]; subst. destruct rs as [|q rs]; [exact Hp|].
+  cbn [map last] in *. apply IH; [discriminate|exact Hrs].
+Qed.
+
+(* the round trip over an accepting writer transport: no hypothesis on results is left *)
+Theorem roundtrip_accepting r cfgW partW ms xw0 ww0 rsw xw ww cfgR partR xr0 wr0 n rsr xr wr :
+  ctx_new r partW cfgW = Some xw0 -> w_log ww0 = [] ->
+  blen (encode_all r (w_keys ww0) ms) <= cfg_max_write_buffer_size cfgW ->
+  acc_wrs (blen (encode_all r (w_keys ww0) ms)) (S (length ms)) (w_wrs ww0) ->
+  acc_fls (S (length ms)) (w_fls ww0) ->
+  run_ops xw0 (map OpWrite ms ++ [OpFlush]) ww0 = (rsw, xw, ww) ->
+  ctx_new (opp r) partR cfgR = Some xr0 ->
+  Forall live_rd (w_rds wr0) ->
+  partR ++ concat (map rd_payload (w_rds wr0)) = wire (w_log ww) ->
+  soft wr0 -> Forall (rd_ok cfgR) ms ->
+  run_ops xr0 (repeat OpRead n) wr0 = (rsr, xr, wr) ->
+  Forall res_ok_unit rsw /\
+  (exists k, delivered rsr = map ok_msg (firstn k ms)) /\
+  ((length ms + length (w_rds wr0) <= n)%nat -> delivered rsr = map ok_msg ms).
+Proof.
+  intros HnW Hl Hb Ha Hf HW HnR Hlive Hdata Hsoft Hok HR.
+  assert (Hp : Forall (fun m => plain m = true) ms).
+  { eapply Forall_impl; [|exact Hok]. intros m [[Hp _] _]. exact Hp. }
+  assert (Hw : written (map OpWrite ms ++ [OpFlush]) = ms).
+  { rewrite written_app, written_writes. cbn [written]. apply app_nil_r. }
+  assert (Hops : Forall wop_ok (map OpWrite ms ++ [OpFlush])).
+  { apply Forall_app. split; [|repeat constructor].
+    apply Forall_forall. intros o Ho. apply in_map_iff in Ho. destruct Ho as [m [<- Hm]].
+    rewrite Forall_forall in Hp. exact (Hp m Hm). }
+  assert (Hlen : length (map OpWrite ms ++ [OpFlush]) = S (length ms)).
+  { rewrite app_length, map_length. cbn [length]. lia. }
+  assert (Hall : Forall res_ok_unit rsw).
+  { apply (writer_accepting r partW cfgW _ xw0 ww0 rsw xw ww HnW Hl Hops); rewrite ?Hw, ?Hlen; assumption. }
+  split; [exact Hall|].
+  assert (Hne : rsw <> []).
+  { pose proof (run_ops_length _ _ _ _ _ _ HW) as L. rewrite Hlen in L. destruct rsw; [discriminate L|discriminate]. }
+  exact (roundtrip _ _ _ _ _ _ _ _ _ _ _ _ _ _ _ _ _ HnW Hl Hb HW (last_res_ok _ _ Hne Hall)
+           HnR Hlive Hdata Hsoft Hok HR).
+Qed.
+
+(* ------------------------------------------------------------------------------------------ *)
+(** * 9. Boolean checkers for the hypotheses (used by the examples in props/C01.v) and the
+      length-encoding boundaries as instances *)
+
+Definition live_rdb (o : rd_out) : bool :=
+  match o with RdData (_ :: _) => true | RdErr WouldBlock => true | _ => false end.
+Definition soft_wrb (o : wr_out) : bool :=
+  match o with WrAccept n => 0 <? n | WrErr WouldBlock => true | _ => false end.
+Definition soft_flb (o : fl_out) : bool :=
+  match o with FlOk => true | FlErr WouldBlock => true | _ => false end.
+Definition softb (w : world) : bool := forallb soft_wrb (w_wrs w) && forallb soft_flb (w_fls w).
+Definition wf_msgb (m : message) : bool :=
+  plain m && (blen (payload_of m) <? two64) &&
+  match m with MText d => is_utf8 d | MPing d | MPong d => blen d <=? 125 | _ => true end.
+Definition fitsb (cfg : config) (m : message) : bool :=
+  (blen (payload_of m) <=? limit_of (cfg_max_frame_size cfg)) &&
+  match m with MText d | MBinary d => blen d <=? limit_of (cfg_max_message_size cfg) | _ => true end.
+Definition rd_okb (cfg : config) (m : message) : bool := wf_msgb m && fitsb cfg m.
+
+Lemma forallb_Forall {A} (f : A -> bool) (P : A -> Prop) (l : list A) :
+  (forall a, f a = true -> P a) -> forallb f l = true -> Forall P l.
+Proof.
+  intros H Hl. rewrite forallb_forall in Hl. apply Forall_forall. intros a Ha. apply H, Hl, Ha.
+Qed.
+
+Lemma live_rdb_ok rds : forallb live_rdb rds = true -> Forall live_rd rds.
+Proof.
+  apply forallb_Forall. intros [[|b bs]| |[]]; cbn; intros H; try discriminate H; exact I.
+Qed.
+
+Lemma softb_ok w : softb w = true -> soft w.
+Proof.
+  unfold softb, soft. intros H. apply Bool.andb_true_iff in H. destruct H as [H1 H2]. split.
+  - revert H1. apply forallb_Forall. intros [n|[]]; cbn; intros H; try discriminate H; try reflexivity. lia.
+  - revert H2. apply forallb_Forall. intros [|[]]; cbn; intros H; try discriminate H; try reflexivity; try exact I.
+Qed.
+
+Lemma rd_okb_ok cfg ms : forallb (rd_okb cfg) ms = true -> Forall (rd_ok cfg) ms.
+Proof.
+  apply forallb_Forall. intros m H. unfold rd_okb, wf_msgb, fitsb in H.
+  repeat (apply Bool.andb_true_iff in H; destruct H as [H ?]).
+  unfold rd_ok, wf_msg, fits. repeat split; try assumption; try lia.
+  - destruct m; try exact I; try assumption; lia.
+  - destruct m; try exact I; lia.
+Qed.
+
+(* payload lengths are universally quantified in the theorems; for the record, the boundaries of
+   the three length encodings as instances (any role, byte value, keys, pre-read part, schedule) *)
+Definition nolimit (cfg : config) : Prop := cfg_max_message_size cfg = None /\ cfg_max_frame_size cfg = None.
+
+Lemma rd_ok_binary_nolimit cfg len b :
+  nolimit cfg -> len < two64 -> rd_ok cfg (MBinary (repeat b (N.to_nat len))).
+Proof.
+  intros [H1 H2] Hl. unfold rd_ok, wf_msg, fits, payload_of. rewrite H1, H2.
+  cbn [plain frame_of frame_message f_payload limit_of]. unfold blen. rewrite repeat_length, N2Nat.id.
+  unfold two64, u64_max in *. repeat split; try exact Hl; lia.
+Qed.
+
+Theorem boundary_lengths len :
+  In len [0; 125; 126; 65535; 65536] ->
+  forall r b part cfg x0 w0 ks n rs x w,
+  nolimit cfg ->
+  ctx_new (opp r) part cfg = Some x0 ->
+  Forall live_rd (w_rds w0) ->
+  part ++ concat (map rd_payload (w_rds w0)) = encode_all r ks [MBinary (repeat b (N.to_nat len))] ->
+  soft w0 ->
+  (1 + length (w_rds w0) <= n)%nat ->
+  run_ops x0 (repeat OpRead n) w0 = (rs, x, w) ->
+  delivered rs = [ok_msg (MBinary (repeat b (N.to_nat len)))].
+Proof.
+  intros Hin r b part cfg x0 w0 ks n rs x w Hcfg Hn Hlive Hdata Hsoft Hle H.
+  assert (Hl : len < two64).
+  { cbn [In] in Hin. unfold two64. repeat (destruct Hin as [<-|Hin]; [reflexivity|]). contradiction. }
+  refine (proj2 (reader_run r part cfg x0 w0 ks _ n rs x w Hn Hlive Hdata Hsoft _ H) Hle).
+  constructor; [|constructor]. exact (rd_ok_binary_nolimit cfg len b Hcfg Hl).
 Qed.
